@@ -375,6 +375,10 @@ def _finite(x):
     return not (math.isnan(x) or math.isinf(x))
 
 
+def _neg_zero(x):
+    return x == 0 and math.copysign(1.0, x) < 0
+
+
 def _arith(op, a, b):
     """Numbers are doubles. Where exact integer arithmetic and double arithmetic would give different answers
     (integers beyond 2**53) the documentation does not choose: UNSPECIFIED."""
@@ -388,6 +392,8 @@ def _arith(op, a, b):
     if op in ('+', '-', '*'):
         if both_int:
             r = a + b if op == '+' else (a - b if op == '-' else a * b)
+            if r == 0 and _neg_zero(fa * fb if op == '*' else (fa + fb if op == '+' else fa - fb)):
+                return UNSPECIFIED    # IEEE gives -0 (0 * -1); an integer carrier has no negative zero
             return r if abs(r) <= MAX_EXACT else UNSPECIFIED
         r = fa + fb if op == '+' else (fa - fb if op == '-' else fa * fb)
         return r if _finite(r) else UNSPECIFIED
@@ -402,6 +408,10 @@ def _arith(op, a, b):
         if math.copysign(1.0, fa) != math.copysign(1.0, fb):
             return UNSPECIFIED        # floored or truncated remainder: not documented
         r = math.fmod(fa, fb)
+        if both_int:
+            if _neg_zero(r):
+                return UNSPECIFIED    # -4 % -2 is -0 for doubles; integer carriers have no negative zero
+            return int(r)             # integer operands give an integer carrier (matters only for the sign of a later zero)
         return r if _finite(r) else UNSPECIFIED
     if op == '**':
         if fa == 0 and fb < 0:
@@ -416,6 +426,8 @@ def _arith(op, a, b):
             return UNSPECIFIED
         if both_int and abs(r) > MAX_EXACT:
             return UNSPECIFIED
+        if both_int and b >= 0:
+            return int(r)             # integer carrier, as for + - * %
         return r
     raise ValueError(op)
 
@@ -450,9 +462,6 @@ def binary_op(op, a, b):
         if num_a and num_b:
             return _arith('+', a, b)
         if isinstance(a, str) or isinstance(b, str):
-            for x in (a, b):
-                if isinstance(x, float) and x == 0 and math.copysign(1.0, x) < 0:
-                    return UNSPECIFIED    # the text of negative zero ('0' or '-0') is not documented
             try:
                 sa, sb = rv.string(a), rv.string(b)
             except (ValueError, OverflowError):
@@ -487,7 +496,9 @@ def unary_op(op, a):
         return not rv.truthy(a)
     if op == '-':
         if rv.is_number(a):
-            return -a
+            if isinstance(a, int) and a == 0:
+                return UNSPECIFIED    # IEEE: -(+0) is -0; an integer carrier has no negative zero
+            return -a                 # IEEE negation: -(0.0) is -0.0, -(-0.0) is 0.0
         return None
     raise ValueError(op)
 
@@ -624,6 +635,9 @@ def selftest():
     assert binary_op('-', datetime.datetime(2024, 1, 7), datetime.date(2024, 1, 6)) == 86400000
     assert binary_op('+', 2, None) is None and binary_op('-', 2, None) is None and binary_op('*', '2', 2) is None
     assert binary_op('+', True, 1) is None and unary_op('-', True) is None and unary_op('!', 0) is True
+    assert math.copysign(1, unary_op('-', 0.0)) == -1 and math.copysign(1, unary_op('-', -0.0)) == 1 and unary_op('-', 0) is UNSPECIFIED
+    assert math.copysign(1, binary_op('*', 0.0, -1)) == -1 and math.copysign(1, binary_op('-', 0.0, 0.0)) == 1
+    assert binary_op('*', 0, -1) is UNSPECIFIED and binary_op('-', 1, 1) == 0 and binary_op('+', '', -0.0) == '-0'
     assert binary_op('/', 1, 0) is UNSPECIFIED and binary_op('%', -7, 3) is UNSPECIFIED and binary_op('%', 7, 3) == 1
     assert binary_op('**', -8, 0.5) is UNSPECIFIED and binary_op('**', 10, 1000) is UNSPECIFIED and binary_op('**', 2, 10) == 1024
     assert binary_op('<', None, 0) is True and binary_op('==', 1, 1.0) is True and binary_op('==', True, 1) is False
